@@ -699,6 +699,11 @@ func runC06(c *Ctx) {
 	c.R.Set("mode0_supplied_instruction_cases_not_judged", im0skipped)
 	evals += im0n
 
+	// (5) several acceptances on one CPU object, table / memory object changed in between
+	repN := c06Repeated(c)
+	c.R.Set("repeated_acceptance_steps", repN)
+	evals += repN
+
 	cellList := map[string]int64{}
 	for k, v := range cells {
 		cellList[k] = v
@@ -716,7 +721,7 @@ func runC06(c *Ctx) {
 	c.R.Set("distinct_nontrivial", distinct.N()+shapes.N())
 	c.R.Set("exhaustive", false)
 	c.R.Set("exhaustive_over", "type{NMI,INT} x IM{0,1,2} x IFF1 x IFF2 x {running, parked on HALT} (48 control combinations, each with data samples; all 256 vector bytes in mode 2, 8 RST and CALL nn in mode 0)")
-	c.R.Set("rule", "(1) every control combination x boundary-biased data (PC=FFFF, SP in {0,1,2,FFFF}, stack bytes meeting PC): one Step with the request pending is judged by the abstract controller transcribed from the property (consumed?, handler address, IFF1/IFF2, SP-2, the two stack bytes = PC except in mode 0, no other register or memory change, no program fetch; refused: identical to the twin Step without a request and the request object untouched); (2) seeded histories of length 8..40 over {EI, DI, NOP, HALT, RETN, RETI, LD A,I, LD A,R, IM 0/1/2, INC B, raise NMI, raise INT} on an instruction tape (in 1/4 of NMI / mode-1 acceptances the device re-raises the same kind through the public constructor from the stack-write callback: it must stay pending), nesting depth <= 3, model stepped alongside (acceptance exactly when due, EI-delay of one instruction tolerated, RETI IFF tolerance, P/V of LD A,I = model IFF2, handler notifications exactly once per RETN/RETI); (3) ALL 1786 openings of the seven tables (implemented or not) x 16 states, a quarter of them with no handler registered: handlers silent except ED 45 (RETN once) / ED 4D (RETI once) - the unimplemented RETN mirrors ED 55/65/75/5D/6D/7D may at most notify RETN's handler - and RETN/RETI themselves equal to the reference model with and without handlers; half of the histories run without handlers; (4) mode 0 with the bytes of ANY implemented instruction supplied by the device (except HALT, EI/DI, CALL/RST, RETN/RETI, LD A,I/R): registers, flags, memory, port traffic and data accesses equal to the reference model executing the same bytes from memory with both flip-flops cleared (PC-relative results, R and cases touching the bytes at PC not judged). Distinct = distinct single-step cases (control, data) + distinct history shapes (event-kind sequences)")
+	c.R.Set("rule", "(1) every control combination x boundary-biased data (PC=FFFF, SP in {0,1,2,FFFF}, stack bytes meeting PC): one Step with the request pending is judged by the abstract controller transcribed from the property (consumed?, handler address, IFF1/IFF2, SP-2, the two stack bytes = PC except in mode 0, no other register or memory change, no program fetch; refused: identical to the twin Step without a request and the request object untouched); (2) seeded histories of length 8..40 over {EI, DI, NOP, HALT, RETN, RETI, LD A,I, LD A,R, IM 0/1/2, INC B, raise NMI, raise INT} on an instruction tape (in 1/4 of NMI / mode-1 acceptances the device re-raises the same kind through the public constructor from the stack-write callback: it must stay pending), nesting depth <= 3, model stepped alongside (acceptance exactly when due, EI-delay of one instruction tolerated, RETI IFF tolerance, P/V of LD A,I = model IFF2, handler notifications exactly once per RETN/RETI); (3) ALL 1786 openings of the seven tables (implemented or not) x 16 states, a quarter of them with no handler registered: handlers silent except ED 45 (RETN once) / ED 4D (RETI once) - the unimplemented RETN mirrors ED 55/65/75/5D/6D/7D may at most notify RETN's handler - and RETN/RETI themselves equal to the reference model with and without handlers; half of the histories run without handlers; (4) mode 0 with the bytes of ANY implemented instruction supplied by the device (except HALT, EI/DI, CALL/RST, RETN/RETI, LD A,I/R): registers, flags, memory, port traffic and data accesses equal to the reference model executing the same bytes from memory with both flip-flops cleared (PC-relative results, R and cases touching the bytes at PC not judged); (5) 2..5 acceptances of random kinds in a row on ONE CPU object, the mode-2 table entry rewritten and the memory object sometimes replaced in between, handlers left with or without RETN/RETI: each acceptance judged on what memory holds now. Distinct = distinct single-step cases (control, data) + distinct history shapes (event-kind sequences)")
 	c.R.Assume("mode 0: the pushed return address is not judged here (C07's subject); requests with empty data in mode 0/2 or IM outside 0..2 get no verdict (C12)")
 	if len(cells) < 48 {
 		c.R.Inconclusive(fmt.Sprintf("only %d of 48 control cells observed", len(cells)))
